@@ -25,10 +25,17 @@ def realise_perm(p, variant, salt):
     return PERMS[p]
 
 PRINC = [Everyone, 'alice', 'bob', 'group:editors', Authenticated]   # index = model name; 0 = Everyone
-PERMS = ['view', 'edit', 'delete']                                      # index = model name
+# index = model name.  3 and 4 are SUBSTRING TRAPS: 'edit' is a substring of 'edit_all' and 'vie' of 'view', so a str
+# permission field tested with `in` (instead of being compared whole) would match the wrong request
+PERMS = ['view', 'edit', 'delete', 'edit_all', 'vie']
+NPERM = len(PERMS)
+
+
+def pick_perm(rng):
+    return rng.choice([0, 0, 0, 1, 1, 1, 2, 2, 3, 4])
 ACTIONS = [Allow, Deny, 'Maybe']                                        # 2 = neither Allow nor Deny
 
-RULE = ('ACLs also written in other containers (tuple, callable returning list/tuple, generator function, custom iterable, generator object) and principals as list/tuple/set/frozenset; lineages of 1..8 locations (deciding ACE placed at every depth), each realised BOTH with plain attribute parents and with LAZY parents (a __parent__ property building a fresh wrapper on every access, nothing else keeping it alive), each without __acl__ / with a static ACL / with a callable ACL of 0..6 '
+RULE = ('permission fields also written as tuple/list/set/frozenset/generator/map/iter/filter (fresh per query) incl. substring-trap names; ACLs also written in other containers (tuple, callable returning list/tuple, generator function, custom iterable, generator object) and principals as list/tuple/set/frozenset; lineages of 1..8 locations (deciding ACE placed at every depth), each realised BOTH with plain attribute parents and with LAZY parents (a __parent__ property building a fresh wrapper on every access, nothing else keeping it alive), each without __acl__ / with a static ACL / with a callable ACL of 0..6 '
         'ACEs over {Allow,Deny}x5 principals x {single name, list, ALL_PERMISSIONS}; every case asks permits() '
         'for one principal subset and one permission and principals_allowed_by_permission(); a case is '
         'non-trivial when at least two ACEs of the lineage hit (order decides) or the deciding ACE is not in '
@@ -246,6 +253,92 @@ def impl_containers(case, containers, variant=0):
 
 CMP_KEYS = ('permits', 'at', 'allowed', 'policy_agrees', 'type_ok', 'allowed_granted')
 
+# the PERMISSION FIELD of an ACE: the same abstract permission set written as a tuple, list, set, frozenset, or as a one-shot
+# iterator (generator expression, map(), iter(), filter()) — `is_nonstr_iter` accepts anything with `__iter__`, and
+# `permission in <iterator>` works (it consumes the iterator up to the hit).  A single permission stays a str (compared
+# whole), ALL_PERMISSIONS stays the marker.  Because a one-shot iterator serves ONE membership test, the ACEs are built
+# FRESH for every query by a callable `__acl__` (each ACE is tested at most once per query by permits() and by
+# principals_allowed_by_permission()).  Excluded: one iterator object shared by several ACEs or kept across queries —
+# the second test sees it exhausted, on the unchanged code as well.
+PERM_KINDS = ['tuple', 'list', 'set', 'frozenset', 'generator', 'map', 'iter', 'filter']
+
+
+def realise_field(pm, kind):
+    if pm == 'all':
+        return ALL_PERMISSIONS
+    if not isinstance(pm, list):
+        return PERMS[pm]
+    names = [PERMS[x] for x in pm]
+    if kind == 'tuple': return tuple(names)
+    if kind == 'list': return list(names)
+    if kind == 'set': return set(names)
+    if kind == 'frozenset': return frozenset(names)
+    if kind == 'generator': return (x for x in names)
+    if kind == 'map': return map(str, names)
+    if kind == 'iter': return iter(names)
+    if kind == 'filter': return filter(None, names)
+    raise ValueError(kind)
+
+
+def field_kind(pf, k, j):
+    if pf[0] == 'uniform':
+        return pf[1]
+    h = (pf[1] * 2654435761 + k * 40503 + j * 9176 + 777) & 0xffffffff
+    return PERM_KINDS[(h >> 9) % len(PERM_KINDS)]
+
+
+def build_permfields(case, pf):
+    nodes = []
+    parent = None
+    for k, acl in reversed(list(enumerate(case['lineage']))):
+        n = Node()
+        n.__parent__ = parent
+        n.__name__ = 'n%d' % k
+        if acl is not None:
+            def fresh(n=n, k=k, acl=acl):
+                aces = [(ACTIONS[a], PRINC[w], realise_field(pm, field_kind(pf, k, j))) for j, (a, w, pm) in enumerate(acl)]
+                n._aces = aces            # the ACE objects of THIS query (for locating the deciding one by identity)
+                return aces
+            n.__acl__ = fresh
+        parent = n
+        nodes.append(n)
+    nodes.reverse()
+    return nodes
+
+
+def impl_permfields(case, pf):
+    princs = [PRINC[i] for i in case['princs']]
+    perm = PERMS[case['perm']]
+    helper = ACLHelper()
+    nodes = build_permfields(case, pf)
+    r = helper.permits(nodes[0], princs, perm)
+    at = None
+    if not isinstance(r.ace, str):
+        k = [i for i, n in enumerate(nodes) if n is r.context][0]
+        i = [j for j, ace in enumerate(nodes[k]._aces) if ace is r.ace][0]
+        at = [k, i]
+    allowed = helper.principals_allowed_by_permission(nodes[0], perm)
+    r2 = ACLAuthorizationPolicy().permits(nodes[0], princs, perm)
+    granted = {p: bool(helper.permits(nodes[0], [p, Everyone], perm)) for p in allowed}
+    return {'permits': bool(r), 'at': at, 'allowed': sorted(PRINC.index(p) for p in allowed),
+            'policy_agrees': bool(r2) == bool(r), 'allowed_granted': all(granted.values()),
+            'type_ok': type(r).__name__ == ('ACLAllowed' if r else 'ACLDenied')}
+
+
+def permfield_deviation(case, got, which):
+    """the first permission-field realisation (of `which`) that decides differently from `got`, or None"""
+    for pf in which:
+        try:
+            alt = impl_permfields(case, pf)
+        except Exception as e:
+            alt = {'permits': None, 'at': None, 'allowed': None, 'policy_agrees': False, 'type_ok': False,
+                   'allowed_granted': False, 'raised': '%s: %s' % (type(e).__name__, str(e)[:120])}
+        if any(alt[k] != got[k] for k in CMP_KEYS):
+            alt['realisation'] = 'permission fields written as %s (fresh ACEs per query through a callable __acl__)' % (
+                pf[1] if pf[0] == 'uniform' else 'a mix of %s' % PERM_KINDS)
+            return alt
+    return None
+
 
 def container_deviation(case, got, which):
     """the first container realisation (of `which`) that decides differently from `got`, or None"""
@@ -300,16 +393,16 @@ def gen_case(rng, allow_other=False):
                 w = rng.choice([0, 1, 1, 2, 2, 3, 4])
                 pk = rng.random()
                 if pk < 0.45:
-                    p = rng.randrange(3)
+                    p = pick_perm(rng)
                 elif pk < 0.8:
-                    p = [rng.randrange(3) for _ in range(rng.choice([0, 1, 2, 3]))]
+                    p = [pick_perm(rng) for _ in range(rng.choice([0, 1, 2, 3]))]
                 else:
                     p = 'all'
                 acl.append([a, w, p])
             lineage.append(acl)
     princs = [i for i in range(5) if rng.random() < 0.5]
     rng.shuffle(princs)
-    return {'lineage': lineage, 'princs': princs, 'perm': rng.randrange(3)}
+    return {'lineage': lineage, 'princs': princs, 'perm': pick_perm(rng)}
 
 
 def gen_deep_case(rng):
@@ -317,10 +410,10 @@ def gen_deep_case(rng):
     ACL, an empty one, or ACEs that do not match the asked principals/permission"""
     depth = rng.randint(1, 8)
     at = rng.randrange(depth)
-    perm = rng.randrange(3)
+    perm = pick_perm(rng)
     princs = sorted(rng.sample(range(5), rng.randint(1, 3)))
     others = [w for w in range(5) if w not in princs]
-    operm = [p for p in range(3) if p != perm]
+    operm = [p for p in range(NPERM) if p != perm]
     lineage = []
     for k in range(depth):
         if k < at:
@@ -339,7 +432,7 @@ def gen_deep_case(rng):
                 lineage.append(acl)
         elif k == at:
             hit = [rng.choice([0, 0, 1]), rng.choice(princs), rng.choice([perm, 'all', [perm, rng.choice(operm)]])]
-            lineage.append([hit] + ([[rng.choice([0, 1]), rng.choice(range(5)), rng.randrange(3)]] if rng.random() < 0.4 else []))
+            lineage.append([hit] + ([[rng.choice([0, 1]), rng.choice(range(5)), pick_perm(rng)]] if rng.random() < 0.4 else []))
         else:
             lineage.append(gen_case(rng)['lineage'][0])
     return {'lineage': lineage, 'princs': princs, 'perm': perm}
@@ -365,6 +458,8 @@ def check_case(case, model_out, mask):
             # the same ACLs in other containers (one kind for all locations, and a mix), principals in other collections
             salt = mask * 7 + len(json.dumps(case))
             dev = container_deviation(case, got, [('uniform', ACL_KINDS[salt % len(ACL_KINDS)]), ('mixed', salt)])
+            if dev is None:
+                dev = permfield_deviation(case, got, [('uniform', PERM_KINDS[salt % len(PERM_KINDS)]), ('mixed', salt)])
             if dev is not None:
                 got = dev
     if got['permits'] != exp or not got['policy_agrees'] or not got['type_ok']:
@@ -456,6 +551,24 @@ def search(ctx):
                                   'detail': 'the decision depends on the container the ACL is written in'})
                 if len(viol) >= 3:
                     return {'violations': viol, 'searched': n, 'exhaustive': False}
+    # every permission-field kind, uniformly, on single ACLs of <= 2 ACEs whose permission field is a collection (incl. the
+    # substring traps 'edit_all' / 'vie'), for every requested permission
+    colls = [[0], [1], [0, 1], [3], [1, 3], [4], [0, 4], []]
+    f_aces = [[a, 1, pm] for a in (0, 1) for pm in colls + [1, 3, 0, 4]]
+    for acl in [[x] for x in f_aces] + [[x, y] for x in f_aces for y in f_aces]:
+        for perm in range(NPERM):
+            case = {'lineage': [acl], 'princs': [1], 'perm': perm}
+            n += 1
+            base = impl(case)
+            dev = permfield_deviation(case, base, [('uniform', kd) for kd in PERM_KINDS])
+            if dev is not None or base['permits'] != spec(case):
+                _, v = check_case(case, None, 0)
+                viol.append(v or {'case': case, 'impl': dev, 'expected': {'permits': spec(case)},
+                                  'detail': 'the decision depends on how the permission field of an ACE is written'})
+                if len(viol) >= 3:
+                    return {'violations': viol, 'searched': n, 'exhaustive': False}
+        if ctx.time_left() < 60:
+            break
     # one deciding ACE (Allow / Deny) at every depth of lineages of 1..8 locations, the locations before it without ACL or
     # with an empty / non-matching one; both realisations are compared inside check_case
     for depth in range(1, 9):
@@ -502,6 +615,12 @@ def replay(ctx, rep):
         v = v or {'case': case, 'impl': dev, 'expected': {'permits': spec(case)},
                   'detail': 'the decision depends on the container the ACL is written in'}
         return {'case': case, 'impl': dev, 'impl_list_acls': got, 'model': mo, 'spec': {'permits': spec(case)},
+                'mismatch': m, 'violation': v, 'violates': True}
+    dev = permfield_deviation(case, got, [('uniform', kd) for kd in PERM_KINDS] + [('mixed', i) for i in range(20)])
+    if dev is not None:
+        v = v or {'case': case, 'impl': dev, 'expected': {'permits': spec(case)},
+                  'detail': 'the decision depends on how the permission field of an ACE is written'}
+        return {'case': case, 'impl': dev, 'impl_list_fields': got, 'model': mo, 'spec': {'permits': spec(case)},
                 'mismatch': m, 'violation': v, 'violates': True}
     lz = impl(case, lazy=True)
     if any(lz[k] != got[k] for k in ('permits', 'at', 'allowed', 'allowed_granted')):
